@@ -42,7 +42,11 @@ func runSigma(t *rapid.T, test string, in inst, what string, modes []string) {
 	if mode == "zk:name" && !in.HasRenamed() {
 		mode = "zk:stmt"
 	}
-	if mode == "or-forged" && !(strings.HasPrefix(in.Shape(), "or^") || strings.HasPrefix(in.Shape(), "orc(")) {
+	topOr := strings.HasPrefix(in.Shape(), "or^") || strings.HasPrefix(in.Shape(), "orc(")
+	if topOr && rapid.IntRange(0, 2).Draw(t, "forge") == 0 {
+		mode = "or-forged" // one case in three on an OR-shaped protocol
+	}
+	if mode == "or-forged" && !topOr {
 		mode = "hvzk"
 	}
 	seed := rapid.Uint64().Draw(t, "seed")
